@@ -283,7 +283,9 @@ impl<T: Eq + Hash> FrequentItemsSketch<T> {
     where
         T: Clone,
     {
-        if other.is_empty() {
+        // A purge can remove every counter of `other` while it still carries stream weight and
+        // offset, so the early return must test the weight, not the number of active items.
+        if other.stream_weight == 0 {
             return;
         }
         let merged_total = self.stream_weight + other.stream_weight;
